@@ -836,7 +836,10 @@ def fetch_cases(ctx, world, ckpts, traces):
     good = b''.join(world.main[:1000])
     other = world.branch(990, 10, b'ck-', lambda h, rng: 160)
     bads = {'one-bit': good[:500 * HS + 40] + bytes([good[500 * HS + 40] ^ 1]) + good[500 * HS + 41:],
-            'short': good[:-HS], 'other-branch': good[:990 * HS] + b''.join(other), 'zeros': bytes(1000 * HS), 'empty': b''}
+            'short': good[:-HS], 'other-branch': good[:990 * HS] + b''.join(other), 'zeros': bytes(1000 * HS), 'empty': b'',
+            # the genuine thousand headers followed by more (a server may answer with up to 2016): the REPLY does not hash to the
+            # checkpoint, and what follows the thousand has no claim to be stored unchecked
+            'trailing-foreign': good + b''.join(other), 'trailing-zeros': good + bytes(3 * HS)}
     n = 0
     for name, chunk in bads.items():
         for via in (False, True):
